@@ -349,6 +349,18 @@ class Interp:
             return [(st, H("opaque", src(e)))]
         return m(e, st)
 
+    def ev_repeat(self, e, st):
+        """`[V; N]`: N copies of V for a small literal N, otherwise a buffer nothing is known about (a scratch area handed to
+        an API; constructing it has no effect)."""
+        n_ = rx.int_const(e["len"])
+        out = []
+        for s1, v in self.ev(e["e"], st):
+            if n_ is not None and 0 <= n_ <= 16:
+                out.append((s1, {"v": "list", "items": [v] * n_}))
+            else:
+                out.append((s1, H("opaque", src(e))))
+        return out
+
     def ev_lit(self, e, st):
         if e["t"] == "str":
             return [(st, S([C(e["v"])]))]
@@ -1833,6 +1845,53 @@ class Interp:
             clo = e["args"][0]
             body = clo["body"] if clo["body"].get("k") == "block" else {"k": "block", "l": clo.get("l"), "stmts": [{"k": "expr", "e": clo["body"], "semi": True}]}
             return self.ev_for({"k": "for", "l": e.get("l"), "pat": clo["params"][0], "iter": recv, "body": body}, st)
+        if m in ("try_fold", "fold") and len(e["args"]) == 2 and e["args"][1].get("k") == "closure" and len(e["args"][1]["params"]) == 2:
+            # ITER.fold(INIT, |acc, x| BODY) is `let mut acc = INIT; for x in ITER { acc = BODY; } acc`; try_fold is the same loop
+            # whose body may leave early with an error (`?` inside the closure, or an `Err(..)` result), the value being Ok(acc)
+            clo = e["args"][1]
+            ap = clo["params"][0]
+            while isinstance(ap, dict) and ap.get("k") == "typed":
+                ap = ap["pat"]
+            if isinstance(ap, dict) and ap.get("k") == "ident" and not ap.get("by_ref") and not ap.get("sub"):
+                acc = ap["name"]
+                l_ = e.get("l")
+                cb = clo["body"]
+                stmts = list(cb["stmts"]) if cb.get("k") == "block" else [{"k": "expr", "l": l_, "e": cb, "semi": False}]
+                tail = stmts[-1]["e"] if stmts and stmts[-1].get("k") == "expr" and not stmts[-1].get("semi") else None
+                if tail is not None:
+                    t0 = tail
+                    if m == "try_fold" and t0.get("k") == "call" and t0["f"].get("k") == "path" and t0["f"]["segs"][-1] in ("Ok", "Some") and len(t0["args"]) == 1:
+                        t0 = t0["args"][0]
+                        wrapped = True
+                    else:
+                        wrapped = False
+                    accp = {"k": "path", "l": l_, "segs": [acc], "qself": None}
+                    if t0.get("k") == "path" and t0.get("segs") == [acc] and (wrapped or m == "fold"):
+                        body_stmts = stmts[:-1]  # the accumulator is handed on as it is
+                    else:
+                        rhs = tail if m == "fold" else {"k": "try", "l": l_, "e": tail}
+                        body_stmts = stmts[:-1] + [{"k": "expr", "l": l_, "e": {"k": "assign", "l": l_, "lhs": accp, "rhs": rhs}, "semi": True}]
+                    loop = {"k": "for", "l": l_, "pat": clo["params"][1], "iter": recv, "body": {"k": "block", "l": l_, "stmts": body_stmts}}
+                    out = []
+                    for s0, iv in self.ev(e["args"][0], st):
+                        had = acc in s0.env
+                        old_ = s0.env.get(acc)
+                        s0.env[acc] = iv
+                        for s1, _ in self.ev_for(loop, s0):
+                            val = s1.env.get(acc)
+                            if had:
+                                s1.env[acc] = old_
+                            else:
+                                s1.env.pop(acc, None)
+                            if st.ret is None and isinstance(s1.ret, dict) and s1.ret.get("v") == "err":
+                                v_ = s1.ret
+                                s1.ret = None
+                                out.append((s1, v_))
+                            elif m == "try_fold":
+                                out.append((s1, {"v": "ok", "x": val, "src": src(e)}))
+                            else:
+                                out.append((s1, val))
+                    return out
         if m == "try_for_each" and len(e["args"]) == 1 and e["args"][0].get("k") == "closure" and len(e["args"][0]["params"]) == 1:
             # ITER.try_for_each(|PAT| BODY) is `for PAT in ITER { BODY?; }` whose first error is the value of the whole
             clo = e["args"][0]
@@ -1987,6 +2046,9 @@ class Interp:
             v = argv[0]
             st.buf = st.buf + ([C(v["c"])] if v.get("v") == "char" else [("h", v)])
             return [(st, {"v": "unit"})]
+        if m == "encode_utf8" and len(argv) == 1:
+            # the character as text (in a scratch buffer instead of a new String): `c.to_string()`
+            return self.ev({"k": "mcall", "l": e.get("l"), "recv": e["recv"], "m": "to_string", "targs": [], "args": []}, st)
         if m in ("to_string", "to_owned", "clone", "into", "as_str", "as_ref", "borrow", "as_mut", "to_vec", "iter", "into_iter", "cloned", "copied", "unwrap", "as_deref", "into_owned", "as_slice", "into_boxed_str", "into_string", "deref") and not argv:
             if m == "unwrap":
                 if k == "some":
